@@ -138,7 +138,10 @@ pub fn candidates(
 }
 
 /// Expression → candidate paths that are always tried with it.
-pub const PINNED_PATHS: &[(&str, &[&str])] = &[("/x{a/**,**/b}", &["/xa", "/xa/b", "/x/b", "/xa/c"])];
+pub const PINNED_PATHS: &[(&str, &[&str])] = &[
+    ("/x{a/**,**/b}", &["/xa", "/xa/b", "/x/b", "/xa/c"]),
+    ("<**/\\<:0,1>/**/ǆ", &["/<ǆ", "/ǆ", "a/</ǆ", "/x/ǆ"]),
+];
 
 /// Combinators that are always queried (when the stream reaches their first member).
 pub const PINNED_ANY: &[&[&str]] = &[&["**/b", "", "a/**"]];
